@@ -28,7 +28,7 @@ GENS = {"dag": defs.gen_dag, "loop": defs.gen_loop}
 def monitors(flags=None):
     flags = flags or {}
     ms = [ledger.Ledger(check_ctx=flags.get("ctx", True)), status.StatusMonitor(), immut.AppendOnly(),
-          purity.KeyScan(), items.ItemsMonitor()]
+          purity.KeyScan(), items.ItemsMonitor(), items.ArrivalAtRunningItems()]
     if flags.get("double_poll", True):
         ms.append(purity.DoublePoll())
     return ms
@@ -152,6 +152,10 @@ def collect(out, job, run, m, ident, nontriv_fn=None, extra=None):
         out["sets"].setdefault("tags", set()).update(m.tags)
     if nontriv_fn is None or nontriv_fn(run, m):
         out["nontrivial"].add(digest([run.wf, run.script]))
+    for v in run.violations:
+        rl = (job.get("relabel") or {}).get(v["kind"])
+        if rl:
+            v["prop"], v["kind"] = rl
     mine = [v for v in run.violations if v["prop"] == prop]
     other = [v for v in run.violations if v["prop"] != prop]
     for v in other:
@@ -161,7 +165,7 @@ def collect(out, job, run, m, ident, nontriv_fn=None, extra=None):
         v["workload"] = job.get("name", job.get("fn"))
         v["origin"] = dict({k: job[k] for k in job if k not in ("lo", "hi", "case")}, only=list(ident))
         v["job"] = dict(fn="replay_case", mod=job["mod"], prop=prop, name=job.get("name", job.get("fn")),
-                        flags=job.get("flags"), case=export_case(run, m))
+                        flags=job.get("flags"), relabel=job.get("relabel"), case=export_case(run, m))
         v["wf"] = run.wf
         v["inputs"] = run.inputs
         v["script"] = run.script
